@@ -554,7 +554,7 @@ pub fn parse_comp_header(b: &[u8]) -> Option<CompHeader> {
 
 pub fn serialise_comp_header(h: &CompHeader) -> Vec<u8> {
     let mut out = Vec::new();
-    let mut map = |out: &mut Vec<u8>, over: &MapOverrides, count: usize, body: Vec<u8>| {
+    let map = |out: &mut Vec<u8>, over: &MapOverrides, count: usize, body: Vec<u8>| {
         let mut inner = Vec::new();
         write_itf8(&mut inner, over.count.unwrap_or(count as i32));
         inner.extend_from_slice(&body);
@@ -777,7 +777,7 @@ fn struct_value(which: usize, cur: i32, ids: &[i32]) -> i32 {
 }
 
 /// The addressable slots of container `ci` (empty if its header blocks do not round-trip through the models).
-pub fn container_targets(c: &Cram, ci: usize) -> Vec<Target> {
+pub fn container_targets(c: &Cram, ci: usize) -> Vec<(Target, bool)> {
     let mut v = vec![];
     let Some(ct) = c.containers.get(ci) else { return v };
     if let Some(b0) = ct.blocks.first() {
@@ -785,8 +785,10 @@ pub fn container_targets(c: &Cram, ci: usize) -> Vec<Target> {
             if let Some(mut h) = parse_comp_header(&b0.data) {
                 if serialise_comp_header(&h) == b0.data {
                     let mut n = 0;
-                    h.slots(&mut |_, _, _| n += 1);
-                    v.extend((0..n).map(Target::CompHeader));
+                    h.slots(&mut |_, id, _| {
+                        v.push((Target::CompHeader(n), id));
+                        n += 1;
+                    });
                 }
             }
         }
@@ -797,14 +799,16 @@ pub fn container_targets(c: &Cram, ci: usize) -> Vec<Target> {
                 if let Some(mut h) = parse_slice_header(&b.data) {
                     if serialise_slice_header(&h) == b.data {
                         let mut n = 0;
-                        h.slots(&mut |_, _, _| n += 1);
-                        v.extend((0..n).map(|s| Target::SliceHeader(bi, s)));
+                        h.slots(&mut |_, id, _| {
+                            v.push((Target::SliceHeader(bi, n), id));
+                            n += 1;
+                        });
                     }
                 }
             }
         }
     }
-    v.extend((0..ct.blocks.len()).map(Target::BlockContentId));
+    v.extend((0..ct.blocks.len()).map(|b| (Target::BlockContentId(b), true)));
     v
 }
 
